@@ -4,9 +4,11 @@
 Line protocol of the `options` (C20) and `optmodes` (C21) engines.
 
   schema <hex s.proto> <hex t.proto|-> ABS <nE> (E full closed n (name num)*)* <nM> (M full short parent n field*)*
-         <nX> (X field)* K i0 … i8
+         <nX> (X field)* K i0 … i8 D <0|1>
+     (E values carry `name num intro removed`, M carries a message-set flag, field ends with a utf8 flag;
+      the second source token may carry `,A<hex any.proto>` and `,D` = descriptor.proto linked from a descriptor)
      field = name num kind card map presence oneof targets intro removed full extendee
-  opt <p2|p3|e23> <element> <n> <statement>*
+  opt <p2|p3|e23|e23s> <element> <n> <statement>*      (e23s: the edition-2023 file also defines the custom feature `uf` it uses)
      element   = file | message | oneof | enum | enumvalue | service | method
                | extrange | extrange:<2..4>  (that many ranges in ONE `extensions` statement, sharing the clause)
                | nmessage | nenum | nenumvalue | groupmsg  (nested in a message; body of a group)
@@ -21,6 +23,9 @@ Answers:  options  → result of the strict run;  optmodes → S=<r> L=<r> U=<r>
 A result describes the first element; with several elements sharing the clause it continues `n=<k>`
 and, if the implementation left one of them different from the first, `DIFF <i>:<tree>,r=<rest>` (the
 model interprets each element from the same statements, so it never prints DIFF).
+After ` ~ ` (not compared with the model, but judged by the oracles): P= the file as a descriptor proto without
+AST (…FromProto paths), R= re-interpretation of the serialized result, O= no imports + WithOverrideDescriptorProto,
+PL= / PU= lenient / unlinked interpretation of the descriptor-proto form.
 -/
 import PCV.Engine
 import PCV.Util.Wire
